@@ -242,7 +242,27 @@ def run(chk, prog):
                             where(x, tf), "on the path through lines %s the value of %s reaches set_temperature without "
                             "the cap" % (ex.path_lines(node.id, bad[0]) if bad else "?", C.pretty(v)),
                             function=tf["full"], construct="temperature cap")
-    chk.floor("P3", n3, 3)
+    # helpers of this unit that calculate_temperature calls (a neutral-state helper extracted by a refactoring)
+    helper_names = {x.get("fn") for nd in g.nodes if nd.kind in ("stmt", "decl", "return", "branch") and nd.ast is not None and
+                    nd.ast.get("k") not in ("Abort", "RangeHasNext")
+                    for x in C.walk(nd.ast if nd.kind != "decl" else {"k": "Decl", "d": nd.ast["d"]})
+                    if x.get("k") == "Call" and x.get("fn") and "::" not in x["fn"]}
+    for hn in sorted(h for h in helper_names if h):
+        for hf in tu.functions.get(hn, []):
+            if not hf.get("body") or not (hf.get("file") or "").endswith("TemperatureCalculator.cpp"):
+                continue
+            chk.analysed(function=hf["full"])
+            for s2 in C.walk_stmt(hf["body"]):
+                for x in (C.walk(s2) if s2.get("k") not in ("Block", "If", "For", "While", "Do", "Decl") else ()):
+                    if C.is_call(x, name="set_temperature"):
+                        v = C.strip_casts(x["a"][0])
+                        n3 += 1
+                        chk.require(v.get("k") in ("Float", "Int") and float(v["v"]) <= 30000., "P3",
+                                    "helper %s writes a temperature literal within the cap (line %s)" % (hn, x.get("l")),
+                                    where(x, hf), "a helper of the thermal balance writes `%s`" % C.pretty(v),
+                                    function=hf["full"], construct="temperature literal")
+            n2 += literal_arms(chk, hf, metal_ions)
+    chk.floor("P3", n3, 2)
 
     hydrogen(chk, unit)
     quadratic_arms(chk, unit)
@@ -293,24 +313,37 @@ def hydrogen(chk, unit):
     par = {j: 4 * nH * alpha / ((1 + _delta) ** 2 - 1)}
     n = 0
     exact = []
+    arms = []          # (returned expression, floor, inner expression, guard conditions [(relational, polarity)], line)
     for lf in leaves:
         r = lf.ret
         if r is None:
             raise AnalysisBroken("compute_ionization_state_hydrogen: a path returns nothing")
         line = lf.conds[-1][2].get("l") if lf.conds else fn.get("line")
-        w = "%s:%s" % (where(fn).split(":")[0], line)
-        if not r.free_symbols:
-            n += 1
-            chk.require(0 <= r <= 1, "H5", "no-radiation / vacuum arm returns a literal fraction in [0,1]", w,
-                        "returns %s" % r, function=fn["full"], construct="literal arm")
-            continue
-        inner = r
+        conds = [(c, pol) for c, pol, _ in lf.conds]
         floor = None
+        inner = r
         if isinstance(r, sp.Max):
             lits = [a for a in r.args if a.is_number]
             rest = [a for a in r.args if not a.is_number]
             if len(lits) == 1 and len(rest) == 1:
                 floor, inner = lits[0], rest[0]
+        if isinstance(inner, sp.Piecewise):
+            prev = []
+            for ex_, cnd in inner.args:
+                g = list(conds) + [(pc, False) for pc in prev]
+                if cnd is not sp.true:
+                    g.append((cnd, True))
+                    prev.append(cnd)
+                arms.append((r, floor, ex_, g, line))
+        else:
+            arms.append((r, floor, inner, conds, line))
+    for r, floor, inner, conds, line in arms:
+        w = "%s:%s" % (where(fn).split(":")[0], line)
+        if not inner.free_symbols:
+            n += 1
+            chk.require(0 <= inner <= 1, "H5", "no-radiation / vacuum arm returns a literal fraction in [0,1]", w,
+                        "returns %s" % inner, function=fn["full"], construct="literal arm")
+            continue
         n += 1
         chk.require(floor is not None and 0 <= floor <= 1, "H2",
                     "the closed-form arm (line %s) is floored by a literal in [0,1]" % line, w,
@@ -332,7 +365,7 @@ def hydrogen(chk, unit):
                         construct="upper bound")
         else:
             # asymptotic arm: valid under its guard `g < c`; must be k * g with k * c <= 1
-            guard = [(c, pol) for c, pol, _ in lf.conds if isinstance(c, (sp.StrictLessThan, sp.LessThan)) and pol and
+            guard = [(c, pol) for c, pol in conds if isinstance(c, (sp.StrictLessThan, sp.LessThan)) and pol and
                      c.rhs.is_number]
             okb = False
             for c, _ in guard:
@@ -355,12 +388,8 @@ def hydrogen(chk, unit):
     chk.require(len(exact) == 1, "H1", "exactly one arm is the exact root", where(fn), "%d arms with a square root" %
                 len(exact), function=fn["full"], construct="exact arm")
     # H4: the asymptotic arm is the leading term of the exact arm
-    for lf in leaves:
-        r = lf.ret
-        if r is None or not r.free_symbols or not exact:
-            continue
-        inner = [a for a in r.args if not a.is_number][0] if isinstance(r, sp.Max) else r
-        if inner is exact[0]:
+    for r, floor, inner, conds, line in arms:
+        if not inner.free_symbols or not exact or inner is exact[0] or inner == exact[0]:
             continue
         eps = sp.Symbol("eps", positive=True)
         # scale jH -> jH/eps (strong field): ratio exact/asymptotic -> 1
@@ -400,15 +429,17 @@ def quadratic_arms(chk, unit):
                 c = C.strip_casts(s["c"])
                 th, el = s.get("th"), s.get("el")
                 pair = None
+                envs = (env, env)
                 if el is not None and c.get("k") == "Bin" and c["op"] == "<":
-                    a1 = single_assign(th)
-                    a2 = single_assign(el)
-                    if a1 and a2 and C.ref_key(a1["a"]) == C.ref_key(a2["a"]):
-                        pair = (a1, a2)
+                    r1 = single_assign(th, env, conv)
+                    r2 = single_assign(el, env, conv)
+                    if r1 and r2 and C.ref_key(r1[0]["a"]) == C.ref_key(r2[0]["a"]):
+                        pair = (r1[0], r2[0])
+                        envs = (r1[1], r2[1])
                 if pair:
                     t = conv.conv(c["a"], env)
-                    A = conv.conv(pair[0]["b"], env)
-                    E = conv.conv(pair[1]["b"], env)
+                    A = conv.conv(pair[0]["b"], envs[0])
+                    E = conv.conv(pair[1]["b"], envs[1])
                     roots = [pw for pw in E.atoms(sp.Pow) if pw.exp == sp.Rational(1, 2)]
                     if len(roots) == 1:
                         n += 1
@@ -467,17 +498,28 @@ def ratzero(x):
     return sp.cancel(sp.together(x)) == 0
 
 
-def single_assign(s):
+def single_assign(s, env, conv):
+    """(assignment, environment) when the arm is `[const locals;] x = e;` (macro blocks ignored), else None."""
     if s is None:
         return None
+    env2 = env.copy()
     if s.get("k") == "Block":
         body = [x for x in s["s"] if x.get("k") not in ("Null",) and not (x.get("k") == "Block" and x.get("mac"))]
+        while body and body[0].get("k") == "Decl":
+            for d in body[0]["d"]:
+                if d.get("init") is None:
+                    return None
+                try:
+                    env2.vals[("l", d["id"])] = conv.conv(d["init"], env2)
+                except AnalysisBroken:
+                    return None
+            body = body[1:]
         if len(body) != 1:
             return None
         s = body[0]
     e = C.strip_casts(s)
     if e.get("k") == "Bin" and e["op"] == "=":
-        return e
+        return e, env2
     return None
 
 
